@@ -387,7 +387,21 @@ pub fn check_serialise(c: &SerialiseCase, info: &mut CaseInfo) -> Result<(), Str
 		return Err(format!("serialised string is malformed: {l}"));
 	}
 	let issuer = issuer_info(&case);
-	model::check_cert(&cert, &case.spec, &keys::fixture(&case.key).spki, &issuer)
+	model::check_cert(&cert, &case.spec, &keys::fixture(&case.key).spki, &issuer)?;
+	// the same subject in a certificate issued by a CA whose own name has the same attribute types
+	// and the same texts, all as UTF8Strings: the subject's values keep their own string types
+	if c.values.len() <= 12 {
+		let mut ispec = CertSpec::minimal();
+		ispec.is_ca = IsCaSpec::CaUnconstrained;
+		ispec.kid = KidSpec::Pre(Hex(vec![2]));
+		ispec.dn = DnSpec(case.spec.dn.effective().into_iter().map(|(t, v)| (t, DnValueSpec::new(StrKind::Utf8, v.text))).collect());
+		let twin = CertCase { issuer: Some(IssuerCase { spec: ispec, key: KeySpec { alg: KeyAlg::Ed25519, idx: 1, rsa_hash: RsaHash::Sha256, remote: !cfg!(feature = "crypto") } }), ..case.clone() };
+		let built = build_cert(&twin).map_err(|e| format!("an accepted string value cannot be serialised (issuer-signed): {e}"))?;
+		let (cert, _) = decode_cert(built.cert.der())?;
+		let issuer = issuer_info(&twin);
+		model::check_cert(&cert, &twin.spec, &keys::fixture(&twin.key).spki, &issuer).map_err(|e| format!("issued under a CA whose name has the same texts as UTF8Strings: {e}"))?;
+	}
+	Ok(())
 }
 
 /// one-character values: every `stride`-th scalar of each type's alphabet plus all boundary ones
